@@ -365,6 +365,15 @@ pub fn run_check(ctx: &Ctx) -> i32 {
         with_remover.clone(),
     ];
     slice(ctx, &format!("D<={} x {} selector sets x {} registration sets registered as COMBINED handler entries, with cuts", if quick { 4 } else { 5 }, all_sel.len(), merged_sets.len()), &alpha, if quick { 4 } else { 5 }, &confs(&all_sel, &merged_sets, true), true);
+    // wide configuration: 34 never-matching registrations first, so that the interesting handlers
+    // have registration indices beyond one 32-bit word of the matcher's id sets
+    let mut wide_sels: Vec<SelList> = (0..34).map(|i| SelList::one(Complex::single(ty(&format!("zz{i}"))))).collect();
+    wide_sels.push(pool[0].clone());
+    wide_sels.push(pool[2].clone());
+    wide_sels.push(pool[4].clone());
+    let mut wide_regs: Vec<Reg> = (0..34u8).map(Reg::El).collect();
+    wide_regs.extend([Reg::El(34), Reg::Text(34), Reg::Comm(34), Reg::EndTag(34), Reg::El(35), Reg::Text(35), Reg::EndTag(36), Reg::Text(36), Reg::DocText, Reg::DocEnd]);
+    slice(ctx, &format!("D<={} x one wide configuration (34 never-matching element handlers, then 8 selector-scoped handlers with registration indices 34..41, + document-level), separate and combined entries, with cuts", if quick { 4 } else { 5 }), &alpha, if quick { 4 } else { 5 }, &[confs(&[wide_sels.clone()], &[wide_regs.clone()], false), confs(&[wide_sels], &[wide_regs], true)].into_iter().flatten().collect::<Vec<_>>(), true);
     ctx.finish(
         "model_checking",
         RULE,
